@@ -50,6 +50,16 @@ CHECKS = {
          "Expected walk computed from the raw-link view of the same list.", "stateful PBT + exhaustive interleaving enumeration, two-cursor model oracle"),
  "C15": ("E1 on callback-carrying RawLRU", "exploration", "Both callback constructors, full API; per op the recorded callback invocations must equal the entries that left the list (least recent first, current values) and be empty otherwise.",
          "on_evict<K,V> is unbounded-generic: the recorder uses a type-name guarded cast.", "stateful PBT, departure-log oracle from state-view difference"),
+ "C11": ("E7 estimator sequences, std and no_std builds", "exploration", "Generated TinyLFU configurations x operation sequences (all increment variants, try_reset, clear, estimate*, contains*, comparisons) with raw hashes incl. 0 and u64::MAX; an exact aged-count model gives a lower bound for every estimate (exact equality while a single key has been recorded), pins the reset schedule through the access counter, checks doorkeeper membership and that lt/le/gt/ge/eq order keys exactly as their estimates do; both feature configurations.",
+         "Estimates are bounded, never predicted (count-min collisions inflate them); the sketch seed is pinned through the hook during search.", "PBT over component op sequences, exact aged-count model as lower-bound / equality oracle"),
+ "C13": ("metamorphic two-run differential on E1 histories", "exploration", "A generated history H runs on cache A and H with generated read-only calls inserted runs on B (a clone taken right after construction, or a second construction): every inserted call must leave the full state view (all lists, p, estimator dump) unchanged, and every result of the original ops and every later view must be identical between A and B.",
+         "Read-only call list taken from the statement (peek, peek_mut without write, contains, len/cap/is_empty, peek_lru/mru variants, get_mru, all iterators, per-segment accessors, Debug).", "metamorphic PBT (insertion of read-only calls), state-snapshot equality + two-run differential"),
+ "C16": ("clone runner on E1 histories + E7 (TinyLFU)", "exploration", "Generated prefix -> clone -> equality of capacity, every segment's order/values and estimator dump -> lock-step suffix on both (results, views, callback logs) -> divergent suffix on / drop of one while the other is observed and then used; RawLRU (with and without callback), SegmentedCache, WTinyLFUCache, TinyLFU; all hashers incl. RandomState.",
+         "Instrumented keys/values make shared nodes surface as dead-object accesses.", "stateful PBT, snapshot equality + lock-step differential + independence oracle"),
+ "C17": ("multi-instance differential on E1 histories", "exploration", "The same generated history (incl. clone, purge, resize) runs on six instances whose inner lists use different BuildHashers (FNV seeds, identity, constant-zero, two RandomStates, mixed per list): every result, state view, callback log and release order of departing entries must be identical.",
+         "W-TinyLFU instances share the key hasher and a pinned sketch seed so that the estimator verdicts are the same.", "differential PBT across BuildHashers (pairwise trace equality)"),
+ "C20": ("E7 cost-tracker sequences", "exploration", "Generated SampledLFU sequences over hashed keys and signed costs against an exact map+sum model: room_left after every step, update/remove results, fill_sample shape and membership.",
+         "Costs bounded so that i64 sums are representable.", "PBT over component op sequences, exact map + sum model"),
 }
 
 NOT_YET = {
